@@ -24,6 +24,9 @@ from common import Check, pool_map
 
 LEVEL = "fault_enumeration"
 DATE = "2023-01-01"
+# a target set that touches neither pointers nor group aggregates: a malformed table must be rejected by the validation itself,
+# not by whichever rule happens to stumble over it later
+NARROW = ["eink_st_y_sn", "soli_st_y_sn"]
 
 
 def materialise(t):
@@ -106,13 +109,16 @@ def run_state(st):
         ev["error"] = "materialise:" + type(e).__name__ + ":" + str(e)[:80]
         ev["raised"] = True
         return ev
+    narrow = st.get("narrow")
     try:
-        res, warned, conv, other = runs.compute_warn(df, DATE, targets=gs.default_targets())
+        res, warned, conv, other = runs.compute_warn(df, DATE, targets=(NARROW if narrow else gs.default_targets()))
         ev["warned"] = bool(conv)
         ev["digest"] = digest(res)
     except Exception as e:  # noqa: BLE001
         ev["raised"] = True
         ev["error"] = type(e).__name__ + ":" + str(e)[:80].replace("\n", " ")
+    if narrow:
+        ev["hist"] = ev["hist"] + [{"f": "NarrowTargets", "a": []}]
     return ev
 
 
@@ -138,11 +144,16 @@ def run(tier):
     double = [s for s in states if len(s["hist"]) == 2]
     triple = [s for s in states if len(s["hist"]) == 3]
     chosen = base + single + rnd.sample(double, min(len(double), 400 if quick else 6000)) + rnd.sample(triple, min(len(triple), 100 if quick else 3000))
+    # every single-fault table is also simulated with the narrow target set
+    # (except missing columns: which columns are required depends on the targets)
+    chosen = chosen + [{**s_, "narrow": True} for s_ in single if s_["hist"][0]["fault"] and s_["hist"][0]["f"] != "DropRequired"]
     events = pool_map(run_state, chosen, chunksize=8)
     # base digests: results for the un-injected base table with the same base index
     bd = {(e["t"]["bi"], e["t"]["ord"]): e["digest"] for e in events if not e["hist"]}
     for e in events:
         e["base"] = bd.get((e["t"]["bi"], e["t"]["ord"]), "")
+        if e["hist"] and e["hist"][-1]["f"] == "NarrowTargets":
+            e["base"] = e["digest"]          # (only rejection is judged for the narrow runs; all of them are malformed tables)
     chk.count(len(events))
     tf, of = chk.work / "val_trace.json", chk.work / "val_out.json"
     tlc.write_json(tf, events)
